@@ -111,6 +111,7 @@ fn total(tier: &str, seed: u64, outdir: &str) {
                 for c in part {
                     let (src, cfg) = mal_case(c.idx, fx);
                     *current[ti].lock().unwrap() = (c.idx, Instant::now());
+                    crate::set_cur_case("mal", c.idx);
                     st.evaluated += 1;
                     let h = crate::hash_str_pub(&src);
                     st.distinct.insert(h);
